@@ -240,7 +240,7 @@ def main(argv=None):
     if second is not None:
         summary, second_docs = finish_second_interpreter(prop, *second)
         k = SECOND_SLICE.get(prop, 1) * (2 if args.tier == "thorough" else 1)
-        summary["partitions"] = "all" if k == 1 else f"every {k}th partition of every fan-out"
+        summary["partitions"] = "all" if k == 1 else f"1 in {k} partitions of every fan-out"
         coverage["second_interpreter"] = summary
         wall = time.time() - t0
     for d in second_docs:
